@@ -31,6 +31,7 @@ type c11Req struct {
 }
 
 type c11Beh struct {
+	Stream     bool     `json:"stream"`
 	Hist       []c11Req `json:"hist"`
 	Dispatched []int    `json:"dispatched"`
 }
@@ -111,6 +112,14 @@ func c11Build(kind string, k int) c11Sent {
 		s.uri = fmt.Sprintf("/bad%d", k)
 		hdr("Broken ", "x") // whitespace before the colon
 		finish("GET "+s.uri+" HTTP/1.1", nil, false)
+	case "abort":
+		// chunked body cut inside its first chunk; the client then goes away
+		s.method = "POST"
+		s.uri = fmt.Sprintf("/ab%d", k)
+		s.body = "<aborted>"
+		hdr("Transfer-Encoding", "chunked")
+		finish("POST "+s.uri+" HTTP/1.1", nil, false)
+		s.raw = append(s.raw, []byte("a\r\nhello")...) // 10 bytes announced, 5 sent
 	case "reject":
 		s.method = "POST"
 		s.uri = fmt.Sprintf("/reject%d", k)
@@ -244,7 +253,7 @@ type c11Result struct {
 	problems   []string
 }
 
-func c11RunHistory(b *c11Beh, rmu, stream bool, baseline string) c11Result {
+func c11RunHistory(b *c11Beh, rmu, stream, pipelined bool, baseline string) c11Result {
 	var res c11Result
 	var mu sync.Mutex
 	sent := make([]c11Sent, len(b.Hist)+1)
@@ -273,7 +282,7 @@ func c11RunHistory(b *c11Beh, rmu, stream bool, baseline string) c11Result {
 				res.diffs = append(res.diffs, fmt.Sprintf("request %d (%s): post args seen %q, sent %q", k, b.Hist[k-1].K, sn.Post, w.post))
 			case !c11Eq(sn.Form, w.form):
 				res.diffs = append(res.diffs, fmt.Sprintf("request %d (%s): multipart form seen %q, sent %q", k, b.Hist[k-1].K, sn.Form, w.form))
-			case sn.Body != "<multipart>" && sn.Body != w.body:
+			case sn.Body != "<multipart>" && w.body != "<aborted>" && sn.Body != w.body:
 				res.diffs = append(res.diffs, fmt.Sprintf("request %d (%s): body seen %q, sent %q", k, b.Hist[k-1].K, sn.Body, w.body))
 			case sn.UserVals != 0:
 				res.diffs = append(res.diffs, fmt.Sprintf("request %d (%s): %d user values present at handler start", k, b.Hist[k-1].K, sn.UserVals))
@@ -334,12 +343,36 @@ func c11RunHistory(b *c11Beh, rmu, stream bool, baseline string) c11Result {
 			break
 		}
 		br := bufio.NewReader(c)
+		first := idx
 		for idx < len(b.Hist) && b.Hist[idx].Conn == connNo {
-			k := idx + 1
-			kind := b.Hist[idx].K
 			idx++
-			if _, err := c.Write(sent[k].raw); err != nil {
-				res.problems = append(res.problems, fmt.Sprintf("write of request %d (%s) failed: %v", k, kind, err))
+		}
+		if pipelined {
+			// all requests of this connection in ONE write
+			var all []byte
+			for k := first + 1; k <= idx; k++ {
+				if b.Hist[k-1].K == "abort" {
+					// an incomplete request is written on its own once the earlier responses were
+					// read (the server holds back buffered responses while it waits for a body)
+					continue
+				}
+				all = append(all, sent[k].raw...)
+			}
+			if _, err := c.Write(all); err != nil {
+				res.problems = append(res.problems, fmt.Sprintf("pipelined write on connection %d failed: %v", connNo, err))
+			}
+		}
+		for k := first + 1; k <= idx; k++ {
+			kind := b.Hist[k-1].K
+			if !pipelined || kind == "abort" {
+				if _, err := c.Write(sent[k].raw); err != nil {
+					res.problems = append(res.problems, fmt.Sprintf("write of request %d (%s) failed: %v", k, kind, err))
+					break
+				}
+			}
+			if kind == "abort" {
+				// give the server time to get into the body, then go away; no response is expected
+				time.Sleep(3 * time.Millisecond)
 				break
 			}
 			c.SetReadDeadline(time.Now().Add(3 * time.Second)) //nolint:errcheck
@@ -428,32 +461,44 @@ func TestVerifC11CtxFresh(t *testing.T) {
 	}
 	evals, nontriv := 0, 0
 	for i, b := range bs {
-		cfgs := [][2]bool{{false, false}, {true, false}, {false, true}, {true, true}}
+		rmus := []bool{false, true}
 		if vfQuick() {
-			cfgs = [][2]bool{cfgs[rng.Intn(4)]}
+			rmus = []bool{rng.Intn(2) == 0}
 		}
-		for _, cf := range cfgs {
-			evals++
-			if len(b.Hist) > 1 {
-				nontriv++
+		// pipelining only differs when some connection carries more than one request
+		multi := false
+		for j := 1; j < len(b.Hist); j++ {
+			if b.Hist[j].Conn == b.Hist[j-1].Conn {
+				multi = true
 			}
-			res := c11RunHistory(b, cf[0], cf[1], base[cf])
-			kinds := ""
-			for _, r := range b.Hist {
-				kinds += fmt.Sprintf("%s@%d ", r.K, r.Conn)
-			}
-			c := vfRec{"history": b.Hist, "rmu": cf[0], "stream": cf[1], "expect_dispatched": b.Dispatched, "dispatched": res.dispatched, "diffs": res.diffs, "problems": res.problems}
-			if i%300 == 0 {
-				vfSample(vfRec{"history": kinds, "rmu": cf[0], "stream": cf[1], "expect_dispatched": b.Dispatched, "dispatched": res.dispatched})
-			}
-			key := fmt.Sprintf("[%s] rmu=%v stream=%v", strings.TrimSpace(kinds), cf[0], cf[1])
-			switch {
-			case len(res.problems) > 0:
-				vfViol("C11:problem:"+key+": "+res.problems[0], res.problems[0], c)
-			case fmt.Sprint(res.dispatched) != fmt.Sprint(b.Dispatched):
-				vfViol(fmt.Sprintf("C11:dispatch:%s got=%v want=%v", key, res.dispatched, b.Dispatched), "handler invocations differ from the specification", c)
-			case len(res.diffs) > 0:
-				vfViol("C11:leak:"+key+": "+res.diffs[0], res.diffs[0], c)
+		}
+		for _, rmu := range rmus {
+			for _, pipelined := range []bool{false, true} {
+				if pipelined && !multi {
+					continue
+				}
+				evals++
+				if len(b.Hist) > 1 {
+					nontriv++
+				}
+				res := c11RunHistory(b, rmu, b.Stream, pipelined, base[[2]bool{rmu, b.Stream}])
+				kinds := ""
+				for _, r := range b.Hist {
+					kinds += fmt.Sprintf("%s@%d ", r.K, r.Conn)
+				}
+				c := vfRec{"history": b.Hist, "rmu": rmu, "stream": b.Stream, "pipelined": pipelined, "expect_dispatched": b.Dispatched, "dispatched": res.dispatched, "diffs": res.diffs, "problems": res.problems}
+				if i%300 == 0 {
+					vfSample(vfRec{"history": kinds, "rmu": rmu, "stream": b.Stream, "pipelined": pipelined, "expect_dispatched": b.Dispatched, "dispatched": res.dispatched})
+				}
+				key := fmt.Sprintf("[%s] rmu=%v stream=%v pipelined=%v", strings.TrimSpace(kinds), rmu, b.Stream, pipelined)
+				switch {
+				case len(res.problems) > 0:
+					vfViol("C11:problem:"+key+": "+res.problems[0], res.problems[0], c)
+				case fmt.Sprint(res.dispatched) != fmt.Sprint(b.Dispatched):
+					vfViol(fmt.Sprintf("C11:dispatch:%s got=%v want=%v", key, res.dispatched, b.Dispatched), "handler invocations differ from the specification", c)
+				case len(res.diffs) > 0:
+					vfViol("C11:leak:"+key+": "+res.diffs[0], res.diffs[0], c)
+				}
 			}
 		}
 	}
